@@ -1155,7 +1155,7 @@ MANIFEST = {
             "(dark-shadow lemma + back-substitution) is NOT proved: every SAT witness of the real code is judged at run time by the "
             "verified checkWitness and an independent evaluation. The simplex algorithm (pivoting, branch and bound, strict variant) is not "
             "modelled: its witnesses go through checkWitness(Q), its 'unsatisfiable' explanations are turned into Farkas multipliers and "
-            "go through checkFarkas, branch-and-bound / strict verdicts are compared with Z3 and brute force. OmegaHOL proof terms are "
+            "go through checkFarkas, branch-and-bound / strict verdicts are compared with Z3 and brute force. OmegaHOL "
             "and SimplexHOLWrapper proof terms are checked by theory.check_proof (conclusion false, hypotheses among the given constraints).",
     "note": "Trusted: Lean kernel, propext/Classical.choice/Quot.sound; the Python-AST translator of the two combine functions; the harness "
             "generators and encoders (rows -> GreaterEq/LessEq, explanation -> multipliers); Z3 and the box -6..6 as supporting oracles for "
